@@ -135,7 +135,7 @@ def warped(vid: int, sp, frame, scale: float, odd=None) -> List[float]:
     """odd = None: every lattice line is stretched differently (the four parallel edges of a block all differ);
     odd = (vertex id, displacement): a product grid with ONE displaced vertex, so that in the blocks around it exactly one
     of the four parallel edges differs - in any of the four positions of the axis' wire order, the last included"""
-    x, y, z = vid % 5, (vid // 5) % 5, vid // 25
+    x, y, z = vid % 6, (vid // 6) % 6, vid // 36
     if odd is None:
         p = [sp[0][x] * (1 + 0.10 * y + 0.07 * z), sp[1][y] * (1 + 0.08 * x + 0.05 * z), sp[2][z] * (1 + 0.06 * x + 0.09 * y)]
     else:
